@@ -54,7 +54,9 @@ release_takes=0):
                            and raises `ValueError: Worker 0 not found in in_progress` out of `send_event` (lifecycle already
                            flipped to active, no run in memory).  {"total":2,"idle_timeout":1.0,"gaps":[1.5,1.5],"work":[0,0],
                            "wake":null} -> send_raised.
-  * wake_step_outlasts_timer   the release timer is cancelled only by ticks that arrive through `wait_receive`.  A step started by
+  * wake_step_outlasts_timer   [REPAIRED in /repo 47be180 (any tick the run processes cancels the pending release timer); this region and
+                           `send_ties_with_wakeup` are generated since then.]  Originally:
+                           the release timer is cancelled only by ticks that arrive through `wait_receive`.  A step started by
                            an internal timed wake-up (retry back-off) while the run is idle does not cancel it: if that step is
                            still running idle_timeout after the EARLIER idle announcement, the run is released in the middle of
                            it (step cancelled, handler stamped idle, the reply is not processed).  {"total":2,"idle_timeout":1.0,
@@ -102,7 +104,9 @@ MARK_AFTER = 2.5  # the harness samples what a client sees this long after a run
 
 # Domain switches (see module docstring).  Environment overrides exist only for reproducing the excluded behaviour by hand
 # (C36_DBOS_FLAGS="multi_cycle,exact_deadline"); ./check never sets them.
-FLAGS = {"multi_cycle": False, "exact_deadline": False, "wake_after_release": False, "wake_step_outlasts_timer": False, "send_ties_with_wakeup": False}
+# (wake_step_outlasts_timer and send_ties_with_wakeup are part of the claimed domain since the repository fix 47be180: the decorator now
+#  cancels the pending release timer on every tick the run processes; they are kept as names for the history in the docstring)
+FLAGS = {"multi_cycle": False, "exact_deadline": False, "wake_after_release": False, "wake_step_outlasts_timer": True, "send_ties_with_wakeup": True}
 for _f in filter(None, os.environ.get("C36_DBOS_FLAGS", "").split(",")):
     FLAGS[_f.strip()] = True
 
